@@ -77,6 +77,7 @@ def correspondence(ctx):
             ctx.count(("wave", D, N), True)
             ctx.compare("Wave.step_fourier vs Wave.stepMode", out.ravel(), mo.ravel(), cell=("wave", D, N),
                         detail={"L": L, "c": c, "dt": dt})
+    stepcorr.gensym_sweep(ctx, S.LINEAR)
     ctx.sample({"linear_classes": S.LINEAR + ["Wave"], "dts": DTS})
 
 
